@@ -71,7 +71,7 @@ class Ellipsoid(Shape3D):
 
     @centroid.setter
     def centroid(self, value):
-        self._centroid = np.asarray(value)
+        self._centroid = np.array(value)
 
     @property
     def a(self):
